@@ -163,8 +163,37 @@ def materialize(struct, as_kind="poly"):
         return arr
     if as_kind == "list":
         return arr.tolist()
+    if as_kind == "list_mixed":
+        # nested list whose integral entries are Python ints and the others floats / complex: rows of different
+        # numeric types, as a user types them ([[1, 2], [0.5, 3]])
+        def conv(x):
+            if isinstance(x, list):
+                return [conv(y) for y in x]
+            if isinstance(x, complex):
+                return int(x.real) if x.imag == 0 and x.real == int(x.real) else x
+            return int(x) if x == int(x) else x
+        return conv(arr.tolist())
     if as_kind == "scalar":
         return arr.item()
     if as_kind == "npscalar":
         return arr[()]
     raise ValueError(as_kind)
+
+
+def odd_exponents():
+    """exponents whose storage key chr(e + 59) is a character some string predicate or text format treats specially:
+    the first code points >= 59 that Python counts as digit / decimal / numeric / whitespace / non-printable, plus
+    separators and the ends of the ASCII / latin1 / BMP-punctuation ranges"""
+    out = set()
+    for pred in (str.isdigit, str.isdecimal, str.isnumeric, str.isspace, lambda c: not c.isprintable(), str.isalpha):
+        found = 0
+        for cp in range(60, 0x3000):
+            if pred(chr(cp)):
+                out.add(cp - 59)
+                found += 1
+                if found == 3:
+                    break
+    for ch in "\\|{}~`_^[]":
+        out.add(ord(ch) - 59)
+    out |= {0x7f - 59, 0x80 - 59, 0x85 - 59, 0xa0 - 59, 0xff - 59, 0x100 - 59, 0x2028 - 59, 0x2029 - 59, 0x1680 - 59}
+    return sorted(out)
